@@ -27,6 +27,7 @@ type Case struct {
 	// Drift holds protocol-level observations (which hashes were read, in
 	// what order, ...): a mismatch there is reported as DRIFT, not as a violation.
 	Drift json.RawMessage `json:"drift,omitempty"`
+	line  int             // line of the input file this case came from (replay only; for crash localisation)
 }
 
 // Violation is something the real code did that the property forbids.
@@ -164,12 +165,26 @@ func Replay(world string, path string, workers int) (*Report, error) {
 	var wg sync.WaitGroup
 	var cases, nontriv int64
 	var cmu sync.Mutex
+	// VERIF_MARK names a file prefix: each worker notes, before it starts on a case, the line of the input file the
+	// case came from.  If the code under test brings the process down (stack overflow, fatal error), the orchestrator
+	// finds the cases that were in progress there and re-runs each alone.
+	markPrefix := os.Getenv("VERIF_MARK")
 	for i := 0; i < workers; i++ {
 		wg.Add(1)
-		go func() {
+		go func(i int) {
 			defer wg.Done()
 			var lc, ln int64
+			var mf *os.File
+			if markPrefix != "" {
+				mf, _ = os.Create(fmt.Sprintf("%s.%d", markPrefix, i))
+				if mf != nil {
+					defer mf.Close()
+				}
+			}
 			for c := range ch {
+				if mf != nil {
+					mf.WriteAt([]byte(fmt.Sprintf("%12d\n", c.line)), 0)
+				}
 				vs, nt := safeCheck(w, c)
 				lc++
 				if nt {
@@ -186,12 +201,14 @@ func Replay(world string, path string, workers int) (*Report, error) {
 			cases += lc
 			nontriv += ln
 			cmu.Unlock()
-		}()
+		}(i)
 	}
 	rd := bufio.NewReaderSize(f, 1<<20)
 	nsamp := 0
+	lineNo := 0
 	for {
 		line, err := rd.ReadBytes('\n')
+		lineNo++
 		if len(line) > 0 {
 			l := trimNL(line)
 			var c *Case
@@ -206,6 +223,7 @@ func Replay(world string, path string, workers int) (*Report, error) {
 			}
 			if ok && (c.W == "" || c.W == world) {
 				nsamp++
+				c.line = lineNo
 				ch <- c
 			}
 		}
